@@ -75,9 +75,42 @@ package statebackend
 //@   ensures result != nil
 //@ extern func github.com/NethermindEth/juno/core/deprecatedstate.(*State).Revert
 //@   logged as LegacyRevert
-//@ func deleteBlockContent
+// Deleting a block's content: the same index entries, through the same writer, for that block;
+// the chain height goes back by one (or is removed with the genesis block).
+//@ extern func github.com/NethermindEth/juno/core.GetBlockHeaderHashByNumber
+//@   ensures result1 == nil ==> result0 != nil
+//@ func revertCasmHashMetadata
 //@   trusted
 //@   logged
+//@ extern func github.com/NethermindEth/juno/db.Batch.Delete
+//@   logged as BatchDelete
+//@ extern func github.com/NethermindEth/juno/db.BlockHeaderByNumberKey
+//@ extern func github.com/NethermindEth/juno/db.BlockHeaderNumbersByHashKey
+//@ extern func github.com/NethermindEth/juno/db.BlockCommitmentsKey
+//@ extern func github.com/NethermindEth/juno/core.DeleteTransactionsAndReceipts
+//@   logged as DeleteTxs
+//@ extern func github.com/NethermindEth/juno/core.DeleteStateUpdateByBlockNum
+//@   logged as DeleteStateUpdate
+//@ extern func github.com/NethermindEth/juno/core.DeleteChainHeight
+//@   logged as DeleteChainHeight
+//@ func deleteBlockContent
+//@   props C05, C04
+//@   arith int
+//@   nosafe
+//@   logged
+//@   assigns calls_revertCasmHashMetadata, arg_revertCasmHashMetadata_r, arg_revertCasmHashMetadata_w, arg_revertCasmHashMetadata_stateUpdate, calls_BatchDelete, arg_BatchDelete_key, calls_DeleteTxs, arg_DeleteTxs_reader, arg_DeleteTxs_writer, arg_DeleteTxs_blockNumber, calls_DeleteStateUpdate, arg_DeleteStateUpdate_w, arg_DeleteStateUpdate_blockNum, calls_DeleteChainHeight, arg_DeleteChainHeight_w, calls_WriteChainHeight, arg_WriteChainHeight_w, arg_WriteChainHeight_height
+//@   callsite revertCasmHashMetadata@*: into_the_batch: $1 == writer && $2 == stateUpdate
+//@   callsite DeleteTransactionsAndReceipts@*: this_block_into_the_batch: $1 == writer && $2 == blockNumber
+//@   callsite DeleteStateUpdateByBlockNum@*: this_block_into_the_batch: $0 == writer && $1 == blockNumber
+//@   callsite DeleteChainHeight@*: only_with_genesis: $0 == writer && blockNumber == 0
+//@   callsite WriteChainHeight@*: one_back: $0 == writer && blockNumber > 0 && $1 == blockNumber - 1
+//@   callsite Delete@*: into_the_batch: $0 == writer
+//@   loop 1: invariant counted: rangeindex + 1 <= 3 && calls_BatchDelete == old(calls_BatchDelete) + rangeindex + 1 && calls_DeleteTxs == old(calls_DeleteTxs) && calls_DeleteStateUpdate == old(calls_DeleteStateUpdate) && calls_DeleteChainHeight == old(calls_DeleteChainHeight) && calls_WriteChainHeight == old(calls_WriteChainHeight) && calls_revertCasmHashMetadata == old(calls_revertCasmHashMetadata) + 1
+//@   ensures casm_reverted: result == nil ==> calls_revertCasmHashMetadata == old(calls_revertCasmHashMetadata) + 1
+//@   ensures three_keys_removed: result == nil ==> calls_BatchDelete == old(calls_BatchDelete) + 3
+//@   ensures transactions_removed: result == nil ==> calls_DeleteTxs == old(calls_DeleteTxs) + 1
+//@   ensures state_update_removed: result == nil ==> calls_DeleteStateUpdate == old(calls_DeleteStateUpdate) + 1
+//@   ensures height_moved: result == nil ==> (blockNumber == 0 ==> calls_DeleteChainHeight == old(calls_DeleteChainHeight) + 1 && calls_WriteChainHeight == old(calls_WriteChainHeight)) && (blockNumber > 0 ==> calls_WriteChainHeight == old(calls_WriteChainHeight) + 1 && calls_DeleteChainHeight == old(calls_DeleteChainHeight))
 //@ extern func github.com/NethermindEth/juno/core.(*RunningEventFilter).OnReorgWithBatch
 //@   logged as OnReorgWithBatch
 //@ extern func github.com/NethermindEth/juno/core.(*RunningEventFilter).OnReorg
@@ -136,9 +169,38 @@ package statebackend
 //@   logged as StateUpdate
 //@ extern func github.com/NethermindEth/juno/core/deprecatedstate.(*State).Update
 //@   logged as LegacyUpdate
-//@ func writeBlockContent
+// Writing a block's content: every index of the block goes through the writer it was given (the
+// transaction's batch), once, for this block; the chain height is set to the block's number.
+//@ extern func github.com/NethermindEth/juno/core.WriteBlockHeader
+//@   logged as WriteBlockHeader
+//@ extern func github.com/NethermindEth/juno/core.WriteTransactionsAndReceipts
+//@   logged as WriteTxs
+//@ extern func github.com/NethermindEth/juno/core.WriteStateUpdateByBlockNum
+//@   logged as WriteStateUpdate
+//@ extern func github.com/NethermindEth/juno/core.WriteBlockCommitment
+//@   logged as WriteCommitment
+//@ extern func github.com/NethermindEth/juno/core.WriteL1HandlerMsgHashes
+//@   logged as WriteL1Msgs
+//@ extern func github.com/NethermindEth/juno/core.WriteChainHeight
+//@   logged as WriteChainHeight
+//@ func storeCasmHashMetadata
 //@   trusted
 //@   logged
+//@ func writeBlockContent
+//@   props C05
+//@   arith int
+//@   nosafe
+//@   logged
+//@   requires block != nil && block.Header != nil
+//@   assigns calls_WriteBlockHeader, arg_WriteBlockHeader_w, arg_WriteBlockHeader_header, calls_WriteTxs, arg_WriteTxs_w, arg_WriteTxs_blockNumber, arg_WriteTxs_transactions, arg_WriteTxs_receipts, calls_WriteStateUpdate, arg_WriteStateUpdate_w, arg_WriteStateUpdate_blockNum, arg_WriteStateUpdate_stateUpdate, calls_WriteCommitment, arg_WriteCommitment_w, arg_WriteCommitment_blockNum, arg_WriteCommitment_commitment, calls_WriteL1Msgs, arg_WriteL1Msgs_w, arg_WriteL1Msgs_txns, calls_storeCasmHashMetadata, arg_storeCasmHashMetadata_reader, arg_storeCasmHashMetadata_writer, arg_storeCasmHashMetadata_blockNumber, arg_storeCasmHashMetadata_protocolVersion, arg_storeCasmHashMetadata_stateUpdate, arg_storeCasmHashMetadata_newClasses, calls_WriteChainHeight, arg_WriteChainHeight_w, arg_WriteChainHeight_height
+//@   callsite WriteBlockHeader@*: this_block_into_the_batch: $0 == writer && $1 == block.Header
+//@   callsite WriteTransactionsAndReceipts@*: this_block_into_the_batch: $0 == writer && $1 == block.Number && $2 == block.Transactions && $3 == block.Receipts
+//@   callsite WriteStateUpdateByBlockNum@*: this_block_into_the_batch: $0 == writer && $1 == block.Number && $2 == stateUpdate
+//@   callsite WriteBlockCommitment@*: this_block_into_the_batch: $0 == writer && $1 == block.Number && $2 == commitments
+//@   callsite WriteL1HandlerMsgHashes@*: this_block_into_the_batch: $0 == writer && $1 == block.Transactions
+//@   callsite storeCasmHashMetadata@*: this_block_into_the_batch: $1 == writer && $2 == block.Number && $4 == stateUpdate
+//@   callsite WriteChainHeight@*: this_block_into_the_batch: $0 == writer && $1 == block.Number
+//@   ensures everything_written: result == nil ==> calls_WriteBlockHeader == old(calls_WriteBlockHeader) + 1 && calls_WriteTxs == old(calls_WriteTxs) + 1 && calls_WriteStateUpdate == old(calls_WriteStateUpdate) + 1 && calls_WriteCommitment == old(calls_WriteCommitment) + 1 && calls_WriteL1Msgs == old(calls_WriteL1Msgs) + 1 && calls_storeCasmHashMetadata == old(calls_storeCasmHashMetadata) + 1 && calls_WriteChainHeight == old(calls_WriteChainHeight) + 1
 //@ extern func github.com/NethermindEth/juno/core.(*RunningEventFilter).InsertWithBatch
 //@   logged as InsertWithBatch
 //@ extern func github.com/NethermindEth/juno/core.(*RunningEventFilter).Insert
